@@ -21,6 +21,25 @@ pub fn ticks_json() -> Value {
     Value::Object(m)
 }
 
+static EMITS: Mutex<Vec<String>> = Mutex::new(Vec::new());
+
+/// (verif-emit v): record the canonical rendering of v (printer-independent observation channel for
+/// code whose top-level values are not returned, e.g. module bodies and threads).
+fn verif_emit(v: steel::SteelVal) -> steel::SteelVal {
+    let s = steel::verif::canon(&v);
+    let mut g = EMITS.lock().unwrap_or_else(|p| p.into_inner());
+    if g.len() < 100_000 {
+        g.push(s);
+    }
+    v
+}
+
+pub fn take_emits() -> Vec<String> {
+    let mut g = EMITS.lock().unwrap_or_else(|p| p.into_inner());
+    std::mem::take(&mut *g)
+}
+
 pub fn register(engine: &mut Engine) {
     engine.register_fn("verif-tick", verif_tick);
+    engine.register_fn("verif-emit", verif_emit);
 }
